@@ -2343,7 +2343,8 @@ def q_pm_item_loop(bodies):
     ENTRY = "(fld_0 (fld_0 (as_Some NEXTRES)))"
     STATUS = "(fld_1 (fld_0 (as_Some NEXTRES)))"
     accepted = "(v2b VALRES)"
-    inserted = "(and (= (discr (branch_of PUTRES)) k_int_0) (= (discr (fld_0 (as_Continue (branch_of PUTRES)))) k_int_%d))" % INSERTED
+    ex._konst("int_0")
+    inserted = "(and (= (discr (branch_of PUTRES)) k_int_0) (= (discr (fld_0 (as_Continue (branch_of PUTRES)))) %s))" % ex._konst("int_%d" % INSERTED)
     problems, nq = [], 0
 
     def ask(msg, goal):
@@ -3012,3 +3013,20 @@ from queries_c02 import QUERIES_C02 as _QC02  # noqa: E402
 from queries_c14 import QUERIES_C14 as _QC14  # noqa: E402
 QUERIES["C01"] = QUERIES.get("C01", []) + [q_c03_reconcile_validation] + [q for q in _QC02 if q.__name__ == "q_c02_remove_prefix"] + QUERIES_C10COUNTS
 QUERIES["C16"] = QUERIES.get("C16", []) + [q for q in _QC14 if q.__name__ == "q_c14_gating"] + [q_c17_register_step]
+
+from queries_c03remote import QUERIES_C03REMOTE  # noqa: E402
+for _p in ("C03", "C12"):
+    QUERIES[_p] = QUERIES.get(_p, []) + QUERIES_C03REMOTE
+# C11: a failed ACCEPTED session frees its slot only if the failure is reported for its document: the acceptor records the
+# document from the moment the request was allowed (c10_bob_steps)
+from queries_c10 import q_c10_bob_steps as _qbs  # noqa: E402
+QUERIES["C11"] = QUERIES.get("C11", []) + [_qbs]
+# C05: "the two physical access paths give the same set" also depends on pruning leaving the by-key rows of surviving entries alone
+QUERIES["C05"] = QUERIES.get("C05", []) + [q for q in _QC02 if q.__name__ == "q_c02_remove_prefix"]
+from queries_c05put import QUERIES_C05PUT  # noqa: E402
+for _p in ("C05", "C08"):
+    QUERIES[_p] = QUERIES.get(_p, []) + QUERIES_C05PUT
+# C07: the capability of an open replica lives in the actor's open state, the stored one in the store: a failing request must not
+# discard an acknowledged upgrade (c06_txn_glue) and a document that is still open in the actor cannot be removed and re-imported
+# under it (c14_gating parts C and D)
+QUERIES["C07"] = QUERIES.get("C07", []) + [q_c06_txn_glue] + [q for q in _QC14 if q.__name__ == "q_c14_gating"]
